@@ -6,6 +6,7 @@ mod specgen;
 mod specio;
 mod extract;
 mod c19;
+mod c20;
 mod fsprops;
 mod pipeline;
 mod model;
@@ -44,6 +45,7 @@ fn main() {
     match prop.as_str() {
         "C13" => c13::run(&tier, seed, &out),
         "C19" => c19::run(&tier, seed, &out),
+        "C20" => c20::run(&tier, seed, &out),
         "C05" | "C06" | "C07" | "C08" | "C14" | "C15" | "C17" => hirprops::run(&prop, &tier, seed, &out),
         "C18" | "C04" | "C03" => emitprops::run(&prop, &tier, seed, &out),
         // the emitted-crate stage of properties whose first stage is on the HIR: `lnv E05 ..` etc.
